@@ -141,7 +141,7 @@ def scenarios(tier):
                 '%s/pause_resume/%s' % (pname, tag), prog, results=res,
                 menu=['pause', 'resume'], max_cmds=2,
                 sequences=[['pause', 'resume']], **kw)
-            jobs.append((scn, 0 if quick else 1, 40 if quick else 1200, 1))
+            jobs.append((scn, 1 if quick else 2, 40 if quick else 1200, 1))
             if pname == 'subwf':
                 # the child is paused and resumed on its own
                 scn = PauseScenario(
@@ -149,7 +149,7 @@ def scenarios(tier):
                     results=res, menu=['pause_sub', 'resume_sub'],
                     max_cmds=2, sequences=[['pause_sub', 'resume_sub']],
                     **kw)
-                jobs.append((scn, 0 if quick else 1,
+                jobs.append((scn, 1 if quick else 2,
                              40 if quick else 1200, 1))
     return jobs
 
